@@ -164,9 +164,17 @@ def run(ctx):
     inp = {"mode": "replay", "powers": powers, "byz": byz, "maxround": 3, "filepv": True, "scheds": scheds,
            "random": 50 if quick else 3000, "randlen": 120}
     rows, stats = cc.run_driver(ctx, binp, inp, "solo")
+    # the same schedules with a signer that has NO double-sign protection of its own (MockPV): the statement is about what
+    # the validator signs, and FilePV's CheckHRS would mask a state machine that asks for a conflicting signature
+    rows_m, stats_m = cc.run_driver(ctx, binp, dict(inp, filepv=False), "solo-mockpv")
+    off = max([r["run"] for r in rows] + [0])
+    for r in rows_m:
+        r["run"] += off
+    rows += rows_m
+    stats = {k: stats[k] + stats_m[k] for k in stats}
     # the goal witnesses, each continued by 40 random steps, three different continuations each
     for rep in range(6 if quick else 30):
-        wi = dict(inp, scheds=[dict(sc, id=sc["id"] + 1000 * rep) for sc in wsched], random=0, randtail=40)
+        wi = dict(inp, scheds=[dict(sc, id=sc["id"] + 1000 * rep) for sc in wsched], random=0, randtail=40, filepv=(rep % 2 == 0))
         rows_w, stats_w = cc.run_driver(ctx, binp, wi, "solo-wit%d" % rep)
         off = max([r["run"] for r in rows] + [0])
         for r in rows_w:
@@ -179,6 +187,10 @@ def run(ctx):
     if av is not None:
         account(av, arows, "solo, continuations of drifting runs")
         cov["drift_amplification"] = {"runs": av["runs"], "property_failures": len(av["viol"])}
+    prows, pv = cc.plan_from_drift_solo(ctx, binp, rows, v["drift"], inp, info, byz, 3, me, "solo")
+    if pv is not None:
+        account(pv, prows, "solo, continuations planned by TLC from the observed drifting state")
+        cov["drift_planning"] = {"schedules": pv["runs"], "property_failures": len(pv["viol"])}
     cov["configs"].append({"config": "1 correct (power 1) vs 2 adversarial validators (power 2 each)", "exhaustive_tlc": exh,
                            "simulated_behaviours_replayed": len(scheds), "driver": stats,
                            "coverage_goal_witnesses": {g: len(v) for g, v in sorted(witnesses.items())},
